@@ -3126,6 +3126,14 @@ where
     }
 }
 
+#[cfg(feature = "verif-hooks")]
+impl<K, V, S> HashMap<K, V, S> {
+    /// Verification hook: physical dump of the backing tables.
+    pub fn verif_dump(&self, mut id: impl FnMut(&K, &V) -> u64) -> crate::verif::Dump {
+        self.table.verif_dump(|kv| id(&kv.0, &kv.1))
+    }
+}
+
 #[allow(dead_code)]
 fn assert_covariance() {
     fn map_key<'new>(v: HashMap<&'static str, u8>) -> HashMap<&'new str, u8> {
